@@ -344,7 +344,7 @@ def apply_model(sym, n, f, vals, mut_idx, st):
                     kinds.append((a[1].split("new_")[-1], a[2][0]))
                 else:
                     kinds.append(("?", a))
-            return V(("fmtargs", pieces, tuple(kinds)))
+            return V(fold_literal_args(pieces, tuple(kinds)))
     if p == "std::fmt::Arguments::from_str" and len(vals) == 1:
         return V(("fmtargs", (("txt", vals[0][2]),) if vals[0][0] == "lit" else (("dyn", vals[0]),), ()))
     if p == "std::fmt::format" and len(vals) == 1:
@@ -363,6 +363,35 @@ def apply_model(sym, n, f, vals, mut_idx, st):
     if p == "std::default::Default::default" and not vals:
         return V(default_of(n.get("ty")))
     return None
+
+
+def fold_literal_args(pieces, kinds):
+    """`{}` filled with a string literal is that text: write!(w, "{}{}", "Caused by: ", x) is write!(w, "Caused by: {}", x)"""
+    out, args, i = [], [], 0
+    for pc in pieces:
+        if pc[0] == "hole" and len(pc) == 1 and i < len(kinds):
+            kd, av = kinds[i]
+            i += 1
+            if kd == "display" and av[0] == "lit" and av[1] == "str":
+                if av[2]:
+                    out.append(("txt", av[2]))
+                continue
+            out.append(pc)
+            args.append((kd, av))
+        else:
+            if pc[0] == "hole":
+                if i < len(kinds):
+                    args.append(kinds[i])
+                i += 1
+            out.append(pc)
+    args += list(kinds[i:])
+    merged = []
+    for pc in out:
+        if pc[0] == "txt" and merged and merged[-1][0] == "txt":
+            merged[-1] = ("txt", merged[-1][1] + pc[1])
+        else:
+            merged.append(pc)
+    return ("fmtargs", tuple(merged), tuple(args))
 
 
 def strip_mut(a):
